@@ -55,7 +55,7 @@ enum Place {
 
 /// One window program. Base relation: `from t | select {a, b}` (closed) or `from t` (open).
 pub fn gen(c: &mut Ctx, tier: Tier) -> Option<Program> {
-    let open = tier == Tier::Thorough && c.flag("open-source");
+    let open = c.flag("open-source");
     let places: &[Place] = match tier {
         Tier::Quick => &[Place::Derive, Place::Filter, Place::AfterPlainAggregate, Place::AfterDistinct, Place::AfterTake],
         Tier::Thorough => &[Place::Derive, Place::Filter, Place::Select, Place::SortKey, Place::DeriveThenFilter, Place::FilterThenDerive, Place::AfterTake, Place::AfterPlainAggregate, Place::BeforePlainAggregate, Place::AfterDistinct],
@@ -136,6 +136,24 @@ pub fn gen(c: &mut Ctx, tier: Tier) -> Option<Program> {
     }
     let mut prog = Program::default();
     prog.main = Some(Pipeline { src: Source::Table("t".into()), steps });
+    // inside `group {a} (…)` the key may be named in the sort as well; it is constant within a partition, so
+    // the program means the same
+    // (the key is only nameable inside the group when the relation is open, i.e. read through its wildcard)
+    let key_rep = partitioned && c.flag("key-repeated-in-sort");
+    // (a range frame is only defined relative to exactly one sort key)
+    if (key_rep && (!open || matches!(fr, Some(FrameKind::Range(..))))) || (tier == Tier::Quick && open && !key_rep) {
+        return None;
+    }
+    if key_rep {
+        let txt = pr_program(&prog);
+        if txt.contains("(sort {-b}") {
+            prog.text_rewrites.push(("(sort {-b}".into(), "(sort {a, -b}".into()));
+        } else if txt.contains("(sort {b}") {
+            prog.text_rewrites.push(("(sort {b}".into(), "(sort {a, b}".into()));
+        } else {
+            return None;
+        }
+    }
     Some(prog)
 }
 
